@@ -436,6 +436,10 @@ var c01corpus = []string{
 	// the ingress of the default host leaves the class: c.local must be rebuilt (found by the C07 lint pass)
 	"svc+e/web!http:80:8080+adm:81:adm!- ep~e/web!10.1.3.1:r:web-1 cm~strict-host=true cls+hap:haproxy-ingress.github.io/controller ing+e/i1@1!-,hap!-!_>/:Exact:web:http!-!- ing+d/i3@1!haproxy,-!-!c.local>/x:Exact:web:80!-!- sync ing~e/i1@1!other,-!-!-!-!- sync",
 	"svc+e/web!http:80:8080!- ep~e/web!10.1.3.1:r:web-1 svc+e/api!http:80:8080!- ep~e/api!10.1.2.1:r:api-1 cm~strict-host=true ing+d/i3@1!haproxy,-!-!c.local>/x:Prefix:web:80!-!- sync ing+e/i1@2!haproxy,-!-!_>/:Prefix:api:80!-!- sync ing~e/i1@2!haproxy,-!-!_>/:Prefix:web:80!-!- sync ing-e/i1 sync",
+	// 204d50f strict-host: a host that starts to borrow the default host's root (added by a partial sync / lost its own
+	// root by a delete): the backend of that root gets a path, it must be rebuilt (found by the family c01strict)
+	"svc+d/app!http:80:8080!- ep~d/app!10.0.1.1:r:app-1 svc+e/web!http:80:8080!- ep~e/web!10.1.3.1:r:web-1 cm~strict-host=true ing+e/i1@1!haproxy,-!-!_>/:Prefix:web:80!-!- sync ing+d/i3@2!haproxy,-!-!c.local>/x:Prefix:app:80!-!- sync",
+	"svc+d/app!http:80:8080!- ep~d/app!10.0.1.1:r:app-1 svc+e/web!http:80:8080!- ep~e/web!10.1.3.1:r:web-1 cm~strict-host=true ing+e/i1@1!haproxy,-!-!_>/:Prefix:web:80!-!- ing+d/i2@2!haproxy,-!-!c.local>/:ImplementationSpecific:app:80!-!- ing+d/i3@3!haproxy,-!-!c.local>/x:Prefix:app:80!-!- sync ing-d/i2 sync",
 	// drain-support: an Endpoints update that only moves addresses between ready and not-ready (same address set);
 	// the re-parsed backend differs from the old one in server weights only (seed C03e)
 	"cm~drain-support=true svc+d/app!http:80:8080!- ep~d/app!10.0.1.1:r:app-1+10.0.1.2:r:app-2 ing+d/i1@1!haproxy,-!-!a.local>/:Prefix:app:80!-!- sync ep~d/app!10.0.1.1:r:app-1+10.0.1.2:n:app-2 sync ep~d/app!10.0.1.1:n:app-1+10.0.1.2:r:app-2 sync",
@@ -521,10 +525,56 @@ func c01exhaustive(c *ctx, maxLen int) {
 	rec(nil)
 }
 
+// strict-host family (after seed C01f): with strict-host a host WITHOUT a root path of type begin borrows the root
+// of the default host (config.SyncConfig); every borrower must be rebuilt when the default host's root changes
+// (trackStrictHosts links default host — borrower).  Small exhaustive scope: what the borrower declares at `/`
+// (nothing / Exact / Prefix / ImplementationSpecific = begin) x the type of the default host's root x how the
+// default host's root changes afterwards (other service, leaves the class, deleted, service deleted and back,
+// endpoints only), each followed by a sync; the borrower itself is never touched by the change.
+func c01strict(c *ctx) {
+	base := []string{"svc+d/app!http:80:8080!-", "ep~d/app!10.0.1.1:r:app-1", "svc+e/web!http:80:8080!-", "ep~e/web!10.1.3.1:r:web-1",
+		"svc+e/api!http:80:8080!-", "ep~e/api!10.1.2.1:r:api-1", "cm~strict-host=true"}
+	borrower := []string{"", "+/:Exact:app:80", "+/:Prefix:app:80", "+/:ImplementationSpecific:app:80"}
+	defType := []string{"Prefix", "Exact", "ImplementationSpecific"}
+	for _, b := range borrower {
+		for _, dt := range defType {
+			def := "ing+e/i1@1!haproxy,-!-!_>/:" + dt + ":web:80!-!-"
+			bor := "ing+d/i3@2!haproxy,-!-!c.local>/x:Prefix:app:80" + b + "!-!-"
+			changes := [][]string{
+				{"ing~e/i1@1!haproxy,-!-!_>/:" + dt + ":api:80!-!-", "sync"},
+				{"ing~e/i1@1!other,-!-!_>/:" + dt + ":web:80!-!-", "sync"},
+				{"ing-e/i1", "sync"},
+				{"svc-e/web", "sync", "svc+e/web!http:80:8080!-", "ep~e/web!10.1.3.1:r:web-1", "sync"},
+				{"ep~e/web!10.1.3.1:r:web-1+10.1.3.2:r:web-2", "sync"},
+			}
+			for _, ch := range changes {
+				ops := append(append([]string(nil), base...), def, bor, "sync")
+				ops = append(ops, ch...)
+				c01case(c, ops)
+				c.stat("strict_family", 1)
+				// the borrower loses its own begin root afterwards (delete of the ingress that declared it)
+				if b == "" {
+					own := "ing+d/i2@3!haproxy,-!-!c.local>/:ImplementationSpecific:app:80!-!-"
+					ops = append(append([]string(nil), base...), def, bor, own, "sync", "ing-d/i2", "sync")
+					ops = append(ops, ch...)
+					c01case(c, ops)
+					c.stat("strict_family", 1)
+				}
+				// the borrower arrives after the default host
+				ops = append(append([]string(nil), base...), def, "sync", bor, "sync")
+				ops = append(ops, ch...)
+				c01case(c, ops)
+				c.stat("strict_family", 1)
+			}
+		}
+	}
+}
+
 func runC01(c *ctx) {
 	for _, h := range c01corpus {
 		c01case(c, strings.Fields(h))
 	}
+	c01strict(c)
 	if c.thorough() {
 		c01exhaustive(c, 3)
 	} else {
